@@ -14,7 +14,7 @@ CHECKS = {
 		'engine': 'tv',
 		'technique': 'translation validation: CPython ast and the emitted C++ text are both encoded as z3 bit-vector terms and compared for all inputs inside the agreement premises; sat models are replayed through g++ and CPython; one closed multi-module run obligation',
 		'text': 'For each of several thousand generated scalar functions (all operator pairs and triples, unary / boolean / ternary / parenthesised / nested shapes, if-elif-else, while, for-range, break/continue, augmented assignment, '
-			'declarations with inferred types, shadowing-prone reassignments, calls with default arguments, guarded raise, try / raise / except) and of 30 list[int] templates (for-in, enumerate, indexing incl. negative and symbolic indices, len arithmetic, membership, local literals with append / item assignment, comprehensions; lists modelled as a length term plus 4 element terms, parameter length <= 3) and of 11 class templates (constructors with member initialiser lists, methods, field stores, single inheritance; objects modelled as field maps, C++ initialisation order and static dispatch) the real transpiler runs and z3 decides whether any inputs (three ints in [-2^15, 2^15), one bool) exist on which '
+			'declarations with inferred types, shadowing-prone reassignments, calls with default arguments, guarded raise, try / raise / except) and of 30 list[int] templates (for-in, enumerate, indexing incl. negative and symbolic indices, len arithmetic, membership, local literals with append / item assignment, comprehensions; lists modelled as a length term plus 4 element terms, parameter length <= 3) and of 12 class / enum templates (constructors with member initialiser lists, methods, field stores, single inheritance; objects modelled as field maps, C++ initialisation order and static dispatch) the real transpiler runs and z3 decides whether any inputs (three ints in [-2^15, 2^15), one bool) exist on which '
 			'Python and the emitted C++ return different values or differ in raising. unsat = equal for all such inputs; sat is reported only if the compiled C++ really differs from CPython.',
 		'design_ref': 'DESIGN.md section 2, C01',
 		'note': 'Programs are a bounded enumeration of shapes; inputs are a solver verdict. Loops unrolled 6 times with unwinding assumption. Outside: strings, dicts, tuples, lists of non-int / slices / list methods other than append, classes beyond scalar fields / single inheritance, enums, closures, try blocks around raising calls, floats. '
